@@ -20,6 +20,8 @@ def main():
     if a.replay:
         a.replay = os.path.abspath(a.replay)
         os.environ["VERIF_REPLAYING"] = "1"
+    if a.selftest:
+        os.environ["VERIF_REPLAYING"] = "1"     # a self-test must not replace the evidence of a real run
     try:
         if a.replay and "if replay" not in open(mod.__file__).read() and prop != "C03":
             # this driver has no single-case entry point: run the tier again (replay files and the evidence of
